@@ -2246,14 +2246,19 @@ fn usefulness(patterns: Vec<PatternStack>, q: PatternStack, defs: &Defs) -> Vec<
                                 meta,
                             ),
                         ),
+                        // The witness starts with the fields of the constructor, followed by the
+                        // witnesses of the remaining columns, which must be kept as they are:
                         Ctor::Tuple(fields) => {
+                            let rest = witness.split_off(fields.len());
                             witness = vec![Pattern::typed(
                                 PatternEnum::Tuple(witness),
                                 Type::Tuple(fields.clone()),
                                 meta,
-                            )]
+                            )];
+                            witness.extend(rest);
                         }
                         Ctor::Struct(struct_name, fields) => {
+                            let rest = witness.split_off(fields.len());
                             let witness_fields: Vec<_> = fields
                                 .iter()
                                 .zip(witness.into_iter())
@@ -2263,16 +2268,21 @@ fn usefulness(patterns: Vec<PatternStack>, q: PatternStack, defs: &Defs) -> Vec<
                                 PatternEnum::Struct(struct_name.clone(), witness_fields),
                                 Type::Struct(struct_name.clone()),
                                 meta,
-                            )]
+                            )];
+                            witness.extend(rest);
                         }
                         Ctor::Variant(enum_name, variant_name, None) => {
-                            witness = vec![Pattern::typed(
-                                PatternEnum::EnumUnit(enum_name.clone(), variant_name.clone()),
-                                Type::Enum(enum_name.clone()),
-                                meta,
-                            )]
+                            witness.insert(
+                                0,
+                                Pattern::typed(
+                                    PatternEnum::EnumUnit(enum_name.clone(), variant_name.clone()),
+                                    Type::Enum(enum_name.clone()),
+                                    meta,
+                                ),
+                            );
                         }
-                        Ctor::Variant(enum_name, variant_name, Some(_)) => {
+                        Ctor::Variant(enum_name, variant_name, Some(fields)) => {
+                            let rest = witness.split_off(fields.len());
                             witness = vec![Pattern::typed(
                                 PatternEnum::EnumTuple(
                                     enum_name.clone(),
@@ -2281,7 +2291,8 @@ fn usefulness(patterns: Vec<PatternStack>, q: PatternStack, defs: &Defs) -> Vec<
                                 ),
                                 Type::Enum(enum_name.clone()),
                                 meta,
-                            )]
+                            )];
+                            witness.extend(rest);
                         }
                         Ctor::Array(elem_ty, size) => witness.insert(
                             0,
